@@ -263,6 +263,23 @@ def body(ck):
              {"reproducer": "jax.jit(lambda lg: MultiCategorical(logits=lg, action_dims=(2,3)).log_prob(jnp.array([1,2])))(jnp.arange(5.))",
               "cause": "multi_categorical.py:120 split_idx = jnp.cumsum(jnp.asarray(action_dims[:-1])) is traced under jit; jnp.split needs static indices"})
 
+    # components of a product law are INDEPENDENT: with uniform logits two equal-sized components agree with probability 1/k per
+    # draw; all of n draws agreeing has probability k^-n (< 1e-90 for n = 200), so "every draw has equal components" means the
+    # components share their randomness.  Equal-sized components are the case where a per-size or per-shape key derivation collides.
+    for dims in ([3, 3], [4, 2, 4], [2, 2, 2]):
+        n = 200
+        d = MultiCategorical(logits=jnp.zeros(sum(dims)), action_dims=tuple(dims))
+        draws = np.asarray(jax.vmap(d.sample)(jr.split(jr.key(ck.seed + 17), n)))
+        draws2 = np.asarray(jax.vmap(lambda k: d.sample_and_log_prob(k)[0])(jr.split(jr.key(ck.seed + 18), n)))
+        ck.count("MultiCategorical/independence-probes")
+        for arr, api in ((draws, "sample"), (draws2, "sample_and_log_prob")):
+            for i in range(len(dims)):
+                for k in range(i + 1, len(dims)):
+                    if dims[i] == dims[k] and bool(np.all(arr[:, i] == arr[:, k])):
+                        viol("C15/MultiCategorical/components-share-randomness",
+                             f"components {i} and {k} (both of size {dims[i]}) took the same value in all {n} draws of {api}: a product law must draw its components independently",
+                             {"action_dims": dims, "api": api, "first_draws": arr[:8].tolist()})
+
     # ------------------------------------------------------------------ Normal / MultivariateNormalDiag
     def normal_lit(mu, sg, pts, ent, mode, draws):
         pl = listl(f"({ql(x)}, {ql(lp)}, {ql(p)}, {ql(exp_o(lp))})" for x, lp, p in pts)
